@@ -607,6 +607,11 @@ func runScenario(sc Scenario, dir string, keepRaw bool) Observation {
 
 	r.quiet(250 * time.Millisecond)
 	r.trackDeath()
+	// a KILL for a task the executor does not know ends its event loop; the re-subscription
+	// (back-off 1-2 s) is part of the observation
+	if r.ag.liveStreams() == 0 {
+		r.waitStream()
+	}
 
 	// ---- collect
 	items := ag.snapshot()
